@@ -86,3 +86,37 @@ def argmax_where(x):
         return None
     i = np.unravel_index(int(np.nanargmax(np.where(np.isnan(x), np.inf, x))), x.shape)
     return [int(k) for k in i]
+
+
+def psi_box(eq):
+    """(Rmin, Rmax, Zmin, Zmax) of the tabulated psi data, or None for an analytic
+    equilibrium.  Outside this box the interpolants clamp the coordinates: psi is constant
+    along the outward normal while the derivative routines still return the boundary
+    derivative, so 'the derivative of the interpolated psi' is not defined there and the
+    derivative-based oracles leave such points out (and count them)."""
+    try:
+        b = tuple(float(getattr(eq, k)) for k in ("Rmin", "Rmax", "Zmin", "Zmax"))
+    except (AttributeError, TypeError):
+        return None
+    if not all(np.isfinite(b)):
+        return None
+    return b
+
+
+def inbox(eq, R, Z, margin=0.0):
+    """Boolean array: (R,Z) at least `margin` inside the psi data box (all True without a box)."""
+    R = np.asarray(R, float)
+    Z = np.asarray(Z, float)
+    b = psi_box(eq)
+    if b is None:
+        return np.ones(np.broadcast(R, Z).shape, bool)
+    return (R >= b[0] + margin) & (R <= b[1] - margin) & (Z >= b[2] + margin) & (Z <= b[3] - margin)
+
+
+def cellbox(eq, region, margin=0.0):
+    """(nx, ny) mask of the cells whose centre, faces and corners all lie inside the psi data box."""
+    m = inbox(eq, region.Rxy.centre, region.Zxy.centre, margin)
+    mx = inbox(eq, region.Rxy.xlow, region.Zxy.xlow, margin)
+    my = inbox(eq, region.Rxy.ylow, region.Zxy.ylow, margin)
+    mc = inbox(eq, region.Rxy.corners, region.Zxy.corners, margin)
+    return m & mx[:-1] & mx[1:] & my[:, :-1] & my[:, 1:] & mc[:-1, :-1] & mc[1:, :-1] & mc[:-1, 1:] & mc[1:, 1:]
